@@ -8,6 +8,7 @@ import Resvg.Lemmas.Basic
 import Resvg.Render.Layer
 import Resvg.Render.SizeBook
 import Resvg.Generated.RenderLimits
+import Resvg.Render.TurbSeed
 
 namespace Resvg.Props.C02
 open Resvg.Render Resvg.Render.IntRect
@@ -122,6 +123,84 @@ example : layerRect 0 0 3000000000 10 false ⟨-40, -40, 100, 100⟩ = .ok none 
 /-! non-vacuity: a concrete layer -/
 example : layerRect (21/2) (-3) (100) (7/2) true ⟨-40, -40, 100, 100⟩ = .ok (some ⟨8, -5, 52, 8⟩) := by
   decide +kernel
+
+/-! ### feTurbulence: the pseudo-random generator never leaves `i32`
+
+`init` runs `random` a few thousand times on the reduced seed.  Every intermediate of the reduction
+and of every `random` step fits the machine type it is computed in, for every `i32` seed an attribute
+can produce (fix: `-seed` was formed in `i32`, which `i32::MIN` does not survive). -/
+
+open Resvg.Render in
+/-- the seed reduction: intermediates fit (`-seed` in i64 as the code now computes it, the reduced
+    value back in i32) and the result is a valid generator state -/
+theorem C02_turbulence_seed_init (seed : Int) (h : fitsI32 seed) :
+    Generated.seedReducedWide = true ∧ fitsI64 (-seed) ∧
+    (seed ≤ 0 → fitsI32 (Int.tmod (-seed) (Generated.randM - 1) + 1)) ∧
+    1 ≤ seedInit seed ∧ seedInit seed ≤ Generated.randM - 1 := by
+  unfold fitsI32 at h
+  refine ⟨by decide, ?_, ?_, ?_, ?_⟩
+  · unfold fitsI64; omega
+  · intro hs
+    have hn : 0 ≤ -seed := by omega
+    rw [Int.tmod_eq_emod_of_nonneg hn]
+    unfold fitsI32
+    simp only [Generated.randM]
+    omega
+  · unfold seedInit
+    simp only [Generated.randM]
+    by_cases hs : seed ≤ 0
+    · have hn : 0 ≤ -seed := by omega
+      simp only [hs, if_true, Int.tmod_eq_emod_of_nonneg hn]
+      split <;> omega
+    · simp only [hs, if_false]
+      split <;> omega
+  · unfold seedInit
+    simp only [Generated.randM]
+    by_cases hs : seed ≤ 0
+    · have hn : 0 ≤ -seed := by omega
+      simp only [hs, if_true, Int.tmod_eq_emod_of_nonneg hn]
+      split <;> omega
+    · simp only [hs, if_false]
+      split <;> omega
+
+open Resvg.Render in
+/-- one `random` step on a state in `[1, RAND_M]`: both products, their difference and the corrected
+    value fit `i32`, and the new state is again in `[1, RAND_M]` -/
+theorem C02_turbulence_random_step (s : Int) (h1 : 1 ≤ s) (h2 : s ≤ Generated.randM) :
+    fitsI32 (Generated.randA * Int.tmod s Generated.randQ) ∧
+    fitsI32 (Generated.randR * Int.tdiv s Generated.randQ) ∧
+    fitsI32 (Generated.randA * Int.tmod s Generated.randQ - Generated.randR * Int.tdiv s Generated.randQ) ∧
+    (Generated.randA * Int.tmod s Generated.randQ - Generated.randR * Int.tdiv s Generated.randQ ≤ 0 →
+      fitsI32 (Generated.randA * Int.tmod s Generated.randQ - Generated.randR * Int.tdiv s Generated.randQ + Generated.randM)) ∧
+    1 ≤ random s ∧ random s ≤ Generated.randM := by
+  have hs : 0 ≤ s := by omega
+  unfold random fitsI32
+  rw [Int.tmod_eq_emod_of_nonneg hs, Int.tdiv_eq_ediv_of_nonneg hs]
+  simp only [Generated.randM, Generated.randA, Generated.randQ, Generated.randR] at *
+  refine ⟨?_, ?_, ?_, ?_, ?_, ?_⟩ <;> first | omega | (split <;> omega)
+
+open Resvg.Render in
+/-- **every state the generator ever takes is in `[1, RAND_M]`** — for every `i32` seed and any number
+    of steps; with the step theorem: no arithmetic overflow anywhere in `init` -/
+theorem C02_turbulence_states_in_range (seed : Int) (h : fitsI32 seed) (n : Nat) :
+    1 ≤ (random^[n]) (seedInit seed) ∧ (random^[n]) (seedInit seed) ≤ Generated.randM := by
+  induction n with
+  | zero =>
+    have := C02_turbulence_seed_init seed h
+    simp only [Function.iterate_zero, id]
+    refine ⟨this.2.2.2.1, ?_⟩
+    have h5 := this.2.2.2.2
+    simp only [Generated.randM] at *
+    omega
+  | succ k ih =>
+    rw [Function.iterate_succ_apply']
+    have := C02_turbulence_random_step _ ih.1 ih.2
+    exact ⟨this.2.2.2.2.1, this.2.2.2.2.2⟩
+
+open Resvg.Render in
+/-- the former reduction formed `-seed` in `i32`: for `seed = i32::MIN` that value does not exist -/
+theorem C02_old_seed_negation_overflows : fitsI32 (-2147483648) ∧ ¬ fitsI32 (-(-2147483648)) := by
+  unfold fitsI32; omega
 
 end Resvg.Props.C02
 
